@@ -42,8 +42,24 @@ func findContractDirs() []string {
 	return dirs
 }
 
+var loadOverlay map[string][]byte
+
 func Load(opts Options, extraPatterns []string) (*Verifier, error) {
 	dirs := findContractDirs()
+	// packages that only carry bounded harnesses are loaded too
+	for f := range loadOverlay {
+		d := filepath.Dir(f)
+		found := false
+		for _, x := range dirs {
+			if x == d {
+				found = true
+			}
+		}
+		if !found {
+			dirs = append(dirs, d)
+		}
+	}
+	sort.Strings(dirs)
 	patterns := []string{"."}
 	for _, d := range dirs {
 		rel, _ := filepath.Rel(repoDir, d)
@@ -52,7 +68,7 @@ func Load(opts Options, extraPatterns []string) (*Verifier, error) {
 		}
 	}
 	patterns = append(patterns, extraPatterns...)
-	cfg := &packages.Config{Mode: packages.LoadAllSyntax, Dir: repoDir, BuildFlags: []string{"-tags", "verif"},
+	cfg := &packages.Config{Mode: packages.LoadAllSyntax, Dir: repoDir, BuildFlags: []string{"-tags", "verif"}, Overlay: loadOverlay,
 		Env: append(os.Environ(), "GOFLAGS=-mod=mod", "GOPROXY=off", "GOSUMDB=off", "GOTOOLCHAIN=local")}
 	pkgs, err := packages.Load(cfg, patterns...)
 	if err != nil {
@@ -266,6 +282,7 @@ func cmdCheck(args []string) int {
 		fmt.Fprintln(os.Stderr, "ops table:", err)
 		return 2
 	}
+	loadOverlay = boundedOverlays(*verifDir)
 	V, err := Load(opts, nil)
 	if err != nil {
 		fmt.Fprintln(os.Stderr, "load:", err)
@@ -364,6 +381,24 @@ func cmdCheck(args []string) int {
 			os.WriteFile(filepath.Join(*verifDir, "reference_commit"), out, 0644)
 		}
 	}
+	// bounded symbolic cases (claims.json "symbolic": [{"name": fn, "pkg": dir, "label": ...}])
+	if fre2 == nil || true {
+		for _, h := range loadSymbolic(*verifDir, *prop, *tier) {
+			if fre2 != nil && !fre2.MatchString("bounded."+h.Name) {
+				continue
+			}
+			r := V.RunBounded(h, 4000)
+			results = append(results, r)
+			for _, o := range r.Obls {
+				if ore2 != nil && !ore2.MatchString(o.Name) {
+					o.Status = "skipped"
+					continue
+				}
+				all = append(all, o)
+			}
+		}
+		V.SolveAll(all)
+	}
 	var bsum *BoundedSummary
 	var bviols []string
 	if fre2 == nil && ore2 == nil {
@@ -378,4 +413,32 @@ func cmdCheck(args []string) int {
 func jsonStr(v interface{}) string {
 	b, _ := json.Marshal(v)
 	return string(b)
+}
+
+type symbolicSpec struct {
+	Name  string `json:"name"`
+	Pkg   string `json:"pkg"`
+	Label string `json:"label"`
+	Tier  string `json:"tier"` // "" = both, "thorough" = thorough only
+}
+
+func loadSymbolic(verifDir, prop, tier string) []BoundedHarness {
+	data, err := os.ReadFile(filepath.Join(verifDir, "claims.json"))
+	if err != nil {
+		return nil
+	}
+	var cl map[string]struct {
+		Symbolic []symbolicSpec `json:"symbolic"`
+	}
+	if json.Unmarshal(data, &cl) != nil {
+		return nil
+	}
+	var out []BoundedHarness
+	for _, s := range cl[prop].Symbolic {
+		if s.Tier == "thorough" && tier != "thorough" {
+			continue
+		}
+		out = append(out, BoundedHarness{Name: s.Name, Pkg: s.Pkg, Label: s.Label})
+	}
+	return out
 }
